@@ -510,7 +510,11 @@ func (g *gen) nondet(t *Type, dst, ind string) {
 		g.p("%sif %s := vstub.Choose(0, %s); %s > 0 {\n", ind, n, maxN, n)
 		g.p("%s\t%s := make([]%s, %s)\n", ind, ks, primGo[t.Key], n)
 		g.p("%s\tfor %s := range %s {\n", ind, i, ks)
-		g.nondet(prim(t.Key), fmt.Sprintf("%s[%s]", ks, i), ind+"\t\t")
+		if t.Key == "date" {
+			g.p("%s\t\t%s[%s] = vstub.NondetDateKey()\n", ind, ks, i)
+		} else {
+			g.nondet(prim(t.Key), fmt.Sprintf("%s[%s]", ks, i), ind+"\t\t")
+		}
 		if t.Key == "float32" || t.Key == "float64" {
 			g.p("%s\t\tvstub.Assume(%s[%s] == %s[%s])\n", ind, ks, i, ks, i)
 		}
